@@ -321,6 +321,9 @@ func c12Interp(t *testing.T, c c12Case) (v kit.Verdict) {
 		return v
 	}
 	defer func() {
+		if p := recover(); p != nil {
+			v.Fail = fmt.Sprintf("panic while interpreting the history (a wrapper method must return go-redis' result or error): %v", p)
+		}
 		v.NonTrivial = e.ncmd >= 10 && len(e.types) >= 3 && e.hits >= 1
 		for k := range e.classes {
 			v.Classes = append(v.Classes, k)
@@ -576,6 +579,8 @@ type c12G struct {
 	rt      *rapid.T
 	bit     *rapid.Generator[bool]
 	elapsed time.Duration
+	wrongIn int // 1 key in wrongIn is drawn from any pool (0: 12)
+	pipePct int // percentage of pipeline steps (0: 5)
 }
 
 // uni draws uniformly from [0,n). rapid's IntRange / SampledFrom are deliberately
@@ -619,7 +624,11 @@ var c12AllKeys = func() []string {
 // key draws a key of the pool made for typ; about 1 in 12 draws comes from any pool
 // (deliberately wrong-typed).
 func (g *c12G) key(typ string) string {
-	if g.uni(12) == 0 {
+	w := g.wrongIn
+	if w == 0 {
+		w = 12
+	}
+	if g.uni(w) == 0 {
 		return c12AllKeys[g.uni(len(c12AllKeys))]
 	}
 	return c12Pools[typ][g.uni(len(c12Pools[typ]))]
@@ -678,7 +687,10 @@ func (g *c12G) secs() int64 { return int64(1 + g.uni(100)) }
 func (g *c12G) small(lo, hi int) int64 { return int64(lo + g.uni(hi-lo+1)) }
 
 func c12Gen(rt *rapid.T) c12Case {
-	g := &c12G{rt: rt, bit: rapid.Bool()}
+	return c12GenWith(&c12G{rt: rt, bit: rapid.Bool()})
+}
+
+func c12GenWith(g *c12G) c12Case {
 	n := 10 + g.uni(51)
 	var c c12Case
 	for i := 0; i < n; i++ {
@@ -697,7 +709,7 @@ func c12GenStep(g *c12G, top bool) c12Step {
 		return c12Step{C: "advance", I: []int64{d}}
 	case top && roll == 10 && g.uni(3) == 0: // about 1 step in 300
 		return c12Step{C: "burst", X: g.uni(2) == 1, I: []int64{int64(12 + g.uni(13)), 3000}}
-	case top && roll < 10:
+	case top && roll >= 5 && (roll < 10 || (g.pipePct > 5 && roll >= 105-g.pipePct)): // 5 % (or pipePct %) pipelines
 		np := g.uni(6)
 		s := c12Step{C: "pipeline", X: g.uni(2) == 1}
 		s.D = g.ctxMode(s.X)
